@@ -1,4 +1,5 @@
 """Glue for properties decided by the history explorer: run() and replay() from a small spec."""
+import os
 import json
 
 from mc import explore
@@ -27,6 +28,9 @@ class HistProp(object):
 
   def run(self, tier, report):
     worlds = self.worlds(tier)
+    only = os.environ.get('VERIF_WORLDS')       # debugging aid: restrict to some worlds
+    if only:
+      worlds = [w for w in worlds if w.name in only.split(',')]
     depth = self.depth[tier]
     origins = self.origins[tier]
     total = explore.run(worlds, lambda w: self.monitors(w, tier), depth, origins=origins,
